@@ -486,6 +486,15 @@ Case genIndep() {
     c.i["jt" + std::to_string(k)] = G::range(0, 3);
     c.i["et" + std::to_string(k)] = G::range(0, 4);
   }
+  if (G::chance(6)) {
+    // one item replaced by a single huge polygon (extent 3e9..2e10, far away from everything else): whatever the
+    // offsetter derives from it (orientation, lowest path) must not leak to the other items
+    int k = (int)G::range(0, n - 1);
+    double R = G::oneOf(std::vector<double>{3e9, 6e9, 2e10});
+    c.p["item" + std::to_string(k)] = {GEN::ring((int)G::range(4, 8), (int64_t)(-20 * R), (int64_t)(G::coin() ? 0 : 5 * R), 0.7 * R, R, ccw)};
+    c.i["et" + std::to_string(k)] = 0;   // EndType::Polygon
+    ST.count("huge_item");
+  }
   return c;
 }
 
